@@ -13,13 +13,6 @@ static std::string fmt(const char* f, ...) {
 static uint64_t bytes_hash(const TypeOps& t, const Bytes& b) { return fnv1a(b.data(), b.size(), hash_str(t.name)); }
 
 // ---- mutators ----------------------------------------------------------------------------------
-struct Mutated {
-  Bytes bytes;
-  std::vector<std::string> what;      // human-readable list of applied mutations
-  std::map<int64_t, int64_t> handles; // reference -> payload for the reference decoder / LogReader
-  bool inflated_len = false;
-  bool single() const { return what.size() == 1; }
-};
 
 static const uint64_t kSpecialValues[] = {0, 1, 2, 127, 128, 255, 256, 65535, 65536, 1ull << 31, 1ull << 32, (1ull << 32) + 1, 1ull << 62, 1ull << 63, ~0ull, ~0ull - 1, (uint64_t)-2, (uint64_t)-65, (uint64_t)-129};
 
@@ -59,7 +52,7 @@ static void mutate_tables(const Schema& s, const Value& v, Tape& tp, Schema& os,
 }
 
 // Applies 1..nmut mutations to the valid encoding of (t.schema, v).
-static Mutated mutate(const TypeOps& t, const Value& v, Tape& tp, int nmut, const Value* other = nullptr) {
+Mutated mutate(const TypeOps& t, const Value& v, Tape& tp, int nmut, const Value* other) {
   Mutated m;
   Schema s = *t.schema; Value val = v;
   EncodeOpts eo;
@@ -133,8 +126,7 @@ static Mutated mutate(const TypeOps& t, const Value& v, Tape& tp, int nmut, cons
   return m;
 }
 
-struct LibRead { int status; Value value; size_t pos; std::vector<int64_t> resolved; };
-static LibRead lib_read(const TypeOps& t, const Bytes& bytes, const std::map<int64_t, int64_t>& handles, Obj* into = nullptr) {
+LibRead lib_read(const TypeOps& t, const Bytes& bytes, const std::map<int64_t, int64_t>& handles, Obj* into) {
   ReaderBox r; r.open(t.has_handle ? R_Log : R_Ped, bytes); r.log.handles = handles;
   std::unique_ptr<Obj> own; if (!into) { own = t.make(); into = own.get(); }
   LibRead out; out.status = into->read(r); out.pos = r.position(); out.value = into->get(); out.resolved = r.log.resolved;
@@ -143,7 +135,7 @@ static LibRead lib_read(const TypeOps& t, const Bytes& bytes, const std::map<int
 
 // ------------------------------------------------------------------------------------------------
 // C04: the decoder accepts exactly the documented language and reports the right category.
-static std::string compare_with_reference(Ctx& c, const TypeOps& t, const Bytes& bytes, const std::map<int64_t, int64_t>& handles, bool single_defect, const std::string& how, bool* accepted_noncanonical, bool* rejected) {
+std::string compare_with_reference(Ctx& c, const TypeOps& t, const Bytes& bytes, const std::map<int64_t, int64_t>& handles, bool single_defect, const std::string& how, bool* accepted_noncanonical, bool* rejected) {
   DecodeOpts dopt; dopt.handles = &handles;
   Decoded ref = ref_decode(*t.schema, bytes, dopt);
   LibRead lib = lib_read(t, bytes, handles);
